@@ -30,12 +30,13 @@ import (
 )
 
 type amsg struct {
-	Idx     int
-	Method  string
-	Framing string // none, cl, chunked
-	Expect  bool
-	Body    []byte
-	Raw     []byte
+	Idx        int
+	Method     string
+	Framing    string // none, cl, chunked
+	Expect     bool
+	BadTrailer bool // chunked body followed by a trailer section the server's trailer parser rejects
+	Body       []byte
+	Raw        []byte
 }
 
 type cfg struct {
@@ -147,7 +148,24 @@ func genStream(r *rand.Rand, c cfg) ([]amsg, []byte) {
 				b.WriteString("\r\n")
 				rem = rem[k:]
 			}
-			b.WriteString("0\r\n\r\n")
+			b.WriteString("0\r\n")
+			// trailer section: none, valid, or one the trailer parser rejects (forbidden name, no colon,
+			// request-looking text) - a handler that drains the stream and ignores the read error must not
+			// make the server resume inside the trailer.
+			switch r.Intn(8) {
+			case 0:
+				b.WriteString("X-Trailer: v\r\n")
+			case 1:
+				b.WriteString("Content-Length: 0\r\n")
+				m.BadTrailer = true
+			case 2:
+				fmt.Fprintf(&b, "GET /decoy-%d-9 HTTP/1.1\r\nHost: x\r\n", i)
+				m.BadTrailer = true
+			case 3:
+				b.WriteString("Host: evil\r\nTransfer-Encoding: chunked\r\n")
+				m.BadTrailer = true
+			}
+			b.WriteString("\r\n")
 		default:
 			b.WriteString("\r\n")
 		}
@@ -354,6 +372,12 @@ func TestC02(t *testing.T) {
 			}
 			last = k
 			// 4. what the handler read must be a prefix of the framed body
+			if gen[k].BadTrailer {
+				// the message itself is malformed (forbidden/garbled trailer): what the handler obtains from
+				// Body()/the stream is an error, not judged here; only the desync rules apply
+				r.Event("skipped_body_check_bad_trailer", 1)
+				continue
+			}
 			if c.Program != "multipart" && !bytes.HasPrefix(gen[k].Body, d.Read) {
 				r.Violation(i, "body-prefix-mismatch", fmt.Sprintf("handler of /m%d read %d bytes that are not a prefix of the %d-byte framed body [%s]", k, len(d.Read), len(gen[k].Body), c), payload())
 				return
